@@ -501,3 +501,96 @@ Proof.
   split; [|vm_compute; reflexivity]. intros _. exists [1; 0], [DInts [1]; DInts [0]; DInts []]. split; [reflexivity|].
   vm_compute. repeat constructor.
 Qed.
+
+(* ================= the PRIMITIVES of the links above are theorems =================
+   The configurations of the links above give a meaning, in the vocabulary of Model/Retro.v (a Screen = its experiments, a Plate =
+   its selection vector, ids = ranks of sorted names), to the data.py helpers the smoothers call.  Those helpers are translated
+   themselves (Generated/SrcViews.v, Generated/SrcPlates.v; Props/C14.v proves the translations equal to the models of
+   Model/Views.v, where a Screen object carries its id arrays); the theorems below prove that each translation, read through the
+   representation (rows of the Views screen = the Retro screen, selection vector of the view = the Retro plate), IS the meaning
+   the primitive was given.  Side conditions are those of every reachable call: [screen_wf] / [screen_valid] hold of every
+   constructed screen (C14_constructed_screens), [view_ok] of every view the constructors return, [plate_ids_fresh] /
+   [sample_ids_fresh] ("the ids are what the encoder answers on the current names without a mapping") of every screen built
+   without mappings and - for the plate ids - of the parent after every merge (clause 5 below). *)
+From Batchie Require Import Lib.PyRt Model.Views Model.RetroHoldout Generated.SrcViews Generated.SrcPlates
+  Proofs.C14Defs Proofs.C14ToScreen Proofs.C13SourceHelpers.
+
+(* primitive `__b.merge(__a)` -> [Retro.merge] (C13_MERGEMIN, C13_MERGETB): the translated Plate.merge on two plates of one screen
+   object, of the parent's length, with a non-empty union, succeeds; the merged plate and the parent's rows afterwards are the
+   two components of Retro.merge; the parent keeps its identity and everything but the rows and the plate ids; the plate ids are
+   fresh again and the result is a well-formed view of the new parent *)
+Theorem C13_model_is_source_plate_merge : forall self other : view,
+  v_tag other = v_tag self -> view_ok self -> length (v_sel other) = length (v_sel self) ->
+  screen_wf (v_parent self) -> vselect (vor (v_sel self) (v_sel other)) (s_rows (v_parent self)) <> [] ->
+  exists v', src_plate_merge self other = Ok v' /\
+    v_sel v' = fst (Retro.merge (v_sel self) (v_sel other) (s_rows (v_parent self))) /\
+    s_rows (v_parent v') = snd (Retro.merge (v_sel self) (v_sel other) (s_rows (v_parent self))) /\
+    v_tag v' = v_tag self /\ plate_ids_fresh (v_parent v') /\ screen_wf (v_parent v') /\ view_ok v' /\
+    s_sids (v_parent v') = s_sids (v_parent self) /\ s_tids (v_parent v') = s_tids (v_parent self) /\
+    s_arity (v_parent v') = s_arity (v_parent self) /\ s_ctrl (v_parent v') = s_ctrl (v_parent self).
+Proof. exact src_plate_merge_is_retro_merge. Qed.
+Print Assumptions C13_model_is_source_plate_merge.
+
+(* primitive `__s.plates` -> [plates_of]: the translated Screen.plates of a screen object with fresh plate ids lists, in order,
+   one view per sorted distinct plate NAME, whose selection vectors are plates_of's; all are views of that object *)
+Theorem C13_model_is_source_plates : forall (tag : Z) (p : screen), screen_wf p -> plate_ids_fresh p ->
+  exists vs, src_plates (tag, p) = Ok vs /\ map v_sel vs = plates_of (s_rows p) /\
+             Forall (fun v => v_tag v = tag /\ v_parent v = p /\ view_ok v) vs.
+Proof. exact src_plates_is_plates_of. Qed.
+Print Assumptions C13_model_is_source_plates.
+
+(* primitive `__p.size` -> [plate_size]; Plate.__lt__ (the order heapq uses) compares the numbers of selected rows; and what [pop]
+   demands of a recorded heappop answer is exactly that no plate in the heap is smaller in that order *)
+Theorem C13_model_is_source_plate_size_and_order :
+  (forall v : view, screen_wf (v_parent v) -> view_ok v -> src_view_size v = Ok (plate_size (v_sel v))) /\
+  (forall a b : view, view_ok a -> view_ok b -> src_plate_lt a b = Ok (vcount (v_sel a) <? vcount (v_sel b))) /\
+  (forall (v : view) (heap : list view), view_ok v -> Forall view_ok heap ->
+     forallb (fun w => vcount (v_sel v) <=? vcount w) (map v_sel heap) = true <->
+     (forall w, In w heap -> src_plate_lt w v = Ok false)).
+Proof. exact (conj src_view_size_is_plate_size (conj src_plate_lt_is_vcount_lt pop_minimality_is_plate_lt)). Qed.
+Print Assumptions C13_model_is_source_plate_size_and_order.
+
+(* primitive `__s.unique_sample_ids` -> [sample_names] (names stand for ids): with fresh sample ids the unique ids are 0 .. k-1,
+   k = the number of distinct sample names, and id j selects exactly the rows of the j-th name of sample_names *)
+Theorem C13_model_is_source_unique_sample_ids : forall s : pyscreen, sample_ids_fresh (snd s) ->
+  let names := sample_names (s_rows (snd s)) in
+  src_screen_unique_sample_ids s = Ok (map Z.of_nat (seq 0 (length names))) /\
+  src_screen_n_unique_samples s = Ok (zlen names) /\
+  (forall j, j < length names ->
+     map (fun x => (x =? Z.of_nat j)%Z) (s_sids (snd s)) = map (in_sample (nth j names [])) (s_rows (snd s))).
+Proof. exact src_unique_sample_ids_are_sample_names. Qed.
+Print Assumptions C13_model_is_source_unique_sample_ids.
+
+(* primitive `__p.unique_sample_ids` -> [plate_unique_samples] (_get_plate_sample_id): the plate's unique sample ids are the ranks,
+   among the screen's sorted sample names, of plate_unique_samples - same length, same first element *)
+Theorem C13_model_is_source_plate_unique_sample_ids : forall v : view, sample_ids_fresh (v_parent v) ->
+  src_view_unique_sample_ids v
+  = Ok (map (rank_in (sample_names (s_rows (v_parent v)))) (plate_unique_samples (v_sel v) (s_rows (v_parent v)))).
+Proof. exact src_view_unique_sample_ids_are_plate_unique_samples. Qed.
+Print Assumptions C13_model_is_source_plate_unique_sample_ids.
+
+(* the side conditions are met by every constructed screen: built without mappings it has fresh plate AND sample ids *)
+Theorem C13_constructed_screens_have_fresh_ids : forall rows ar ctrl tm sm og mg s,
+  mk_screen rows ar ctrl tm sm og mg = Ok s -> plate_ids_fresh s /\ (sm = None -> sample_ids_fresh s).
+Proof. exact mk_screen_ids_fresh. Qed.
+Print Assumptions C13_constructed_screens_have_fresh_ids.
+
+(* non-vacuity: three plates of one sample; the translated Screen.plates, then the translated merge of the second into the first,
+   against Retro.plates_of / Retro.merge on the rows *)
+Definition w_hp_row (p : Z) (o : Z) : row :=
+  {| r_sample := [65]%Z; r_plate := [p]; r_treats := [([97], 1)]%Z; r_obs := o; r_mask := false |}.
+Definition w_hp : list row := [w_hp_row 50 1; w_hp_row 49 2; w_hp_row 50 3; w_hp_row 51 4]%Z.
+Example C13_helpers_example :
+  match mk_screen w_hp 1 [] None None true true with
+  | Ok s =>
+      match (dor ps <- src_plates (7%Z, s); dor a <- list_get ps 0%Z; dor b <- list_get ps 1%Z;
+             dor m <- src_plate_merge b a; Ok (map v_sel ps, m)) with
+      | Ok (sels, m) =>
+          sels = plates_of w_hp /\
+          (v_sel m, s_rows (v_parent m)) = Retro.merge (nth 1 (plates_of w_hp) []) (nth 0 (plates_of w_hp) []) w_hp /\
+          map r_plate (s_rows (v_parent m)) = [[50]; [50]; [50]; [51]]%Z /\ s_pids (v_parent m) = [0; 0; 0; 1]%Z
+      | Err _ => False
+      end
+  | Err _ => False
+  end.
+Proof. vm_compute. repeat split. Qed.
